@@ -18,6 +18,7 @@ func checkC08(p *Program, r *Reporter) {
 	r.Rule("E3-B1p", "constant index into the result of a repository function with an explicit nil return: length tested", 1)
 	r.Rule("E3-B2", "request-controlled index/slice bound: 0 <= i < len proven", 3)
 	r.Rule("E3-B4", "slice to array conversion of request-derived slice: length proven", 0)
+	r.Rule("E3-B5", "index computed by a modulo helper with the container's length as modulus: the helper's result is in [0, n)", 3)
 	e.classB("E3-B", e.fns)
 	r.Rule("E3-C", "explicit panic not reachable under a request-controlled condition", 5)
 	e.classC("E3-C", e.fns)
